@@ -66,10 +66,12 @@ type resp struct {
 }
 
 func (x *c20) call(method, path, body string) resp {
-	before := x.w.M.DB.Calls()
+	// only store calls made while serving THIS request on this goroutine count (the mint's invoice watchers run in
+	// their own goroutines and read the store when they start)
+	before := x.w.M.DB.CallsByMe()
 	code, raw, pan := world.Do(x.w.M.H, method, path, body)
 	x.n++
-	r := resp{code: code, raw: raw, db: x.w.M.DB.Calls() - before, pan: pan}
+	r := resp{code: code, raw: raw, db: x.w.M.DB.CallsByMe() - before, pan: pan}
 	if pan != nil {
 		x.w.Viol("C06,C20", "handler-panic/"+method+" "+pathClass(path), "%s %s panicked: %v", method, path, pan)
 		return r
@@ -305,6 +307,8 @@ func (x *c20) mintQuote(amount uint64, extra string) (string, string) {
 	// the harness pays through the Lightning model: find the invoice by request
 	for h, inv := range x.w.LN.Invoices {
 		if inv.Request == req {
+			// let the mint's watcher goroutine finish its start-up reads and park in Recv before anything else happens
+			x.w.LN.WaitBlocked(h, 1)
 			return qid, h
 		}
 	}
@@ -757,7 +761,11 @@ func (x *c20) armed() {
 			for _, persistent := range []bool{false, true} {
 				n := 0
 				hit := false
+				me := dbwrap.GID()
 				w.M.DB.Before = func(c *dbwrap.Call) error {
+					if dbwrap.GID() != me {
+						return nil // background goroutines of the mint are not part of the request
+					}
 					i := n
 					n++
 					if i == k || (persistent && i > k) {
@@ -833,7 +841,7 @@ func c20Menu(w *mintops.W) []string {
 }
 
 func c20Specs(quick bool) []*bfs.Spec {
-	d := 2
+	d := 3
 	if !quick {
 		d = 4
 	}
